@@ -606,6 +606,8 @@ def _clone(node):
     if not isinstance(node, ast.AST):
         return node
     new = type(node)(**{f: _clone(v) for f, v in ast.iter_fields(node)})
+    if hasattr(node, "_home_module"):
+        new._home_module = node._home_module  # inlined from another module: names keep their meaning
     return ast.copy_location(new, node) if hasattr(node, "lineno") else new
 
 
